@@ -207,6 +207,19 @@ theorem navigate_parent_value_scope (root : Json) (blocks : List Block) (k : Nat
   simp only [blockValue, hbv]
   cases descend v0 (n :: ns) <;> rfl
 
+/-- nested scopes binding the SAME block-parameter name: the innermost binding is the one a path sees, whatever the outer
+    scopes bind (the scan of `get_in_block_params` stops at the first hit, innermost scope first) -/
+theorem innermost_block_param_shadows (b : Block) (rest : List Block) (n : Str) (h : Holder)
+    (hb : assocGet b.blockParams n = some h) :
+    getInBlockParams (b :: rest) n = some (h, b.basePath) := by
+  simp [getInBlockParams, hb]
+
+/-- … and a scope that does not bind the name lets the enclosing scopes' binding through -/
+theorem outer_block_param_visible (b : Block) (rest : List Block) (n : Str)
+    (hb : assocGet b.blockParams n = none) :
+    getInBlockParams (b :: rest) n = getInBlockParams rest n := by
+  simp [getInBlockParams, hb]
+
 /-- a first name that is a block parameter holding a *value* (`as |x|` over a literal, a subexpression
     result, an `each` element of a value-held collection) is resolved from that value – regardless of
     any `../` written in front of it (the reading fixed in DESIGN §5 C01) -/
